@@ -98,6 +98,7 @@ func checkC05(c *Ctx) {
 // pre-check of every front end is Core.Enabled, so nothing reachable from any Core implementation's Enabled may
 // derive a core (With), marshal fields, run a hook or touch an encoder/sink.
 func c5EnabledCheap(c *Ctx, impls []*types.Named) {
+	c.Rule("R5.20", "the tee's Enabled is made of its branches' own answers for the level asked about (it asks the branches' Enabled) and never of a reported minimum level - with a branch enabler that is not a threshold the minimum says nothing about the levels above it", 1)
 	c.Rule("R5.7", "Enabled of every Core implementation reaches no With / field marshaling / hook / encoder / sink call", 4)
 	c.Rule("R5.9", "NewTee keeps every core it is given (no construction-time filtering by what a core enables at that moment)", 1)
 	c.Rule("R5.10", "zapio.Writer: nothing is buffered or logged while the writer's level is disabled (bytes written then must not surface once the level is lowered)", 5)
@@ -164,6 +165,7 @@ func c5EnabledCheap(c *Ctx, impls []*types.Named) {
 		rec(fn, 0)
 		c.Check(len(bad) == 0, "R5.7", FStr(fn), "cheap", fn.Pos(), "nothing reachable from Enabled (%d zap functions incl. closures) derives a core, marshals a field, runs a hook or touches an encoder or sink, so a disabled entry costs none of those: %v", len(seen), bad)
 	}
+	c5TeeEnabled(c, "R5.20")
 }
 
 func c5Check(c *Ctx, tn, class string, fn *ssa.Function) {
@@ -1568,4 +1570,54 @@ func c5GrpcPrinterOptions(c *Ctx, rule string) {
 	if n < 2 {
 		c.Bad(rule, "zapgrpc options", "count", token.NoPos, "expected at least two options that install a printer (WithDebug, withWarn), found %d", n)
 	}
+}
+
+// c5TeeEnabled: multiCore.Enabled(lvl) reaches an invoke of Core.Enabled (a branch asked about the level itself) and
+// reaches no Level()/LevelOf/Level.Enabled - the answer is never taken from the tee's minimum level.
+func c5TeeEnabled(c *Ctx, rule string) {
+	fn := c.Method(CorePath, "multiCore", "Enabled")
+	if !c.Anchor(rule, "zapcore.multiCore.Enabled", fn != nil && len(fn.Blocks) > 0) {
+		return
+	}
+	seen := map[*ssa.Function]bool{}
+	asks := 0
+	var bad []string
+	var rec func(f *ssa.Function, depth int)
+	rec = func(f *ssa.Function, depth int) {
+		if f == nil || seen[f] || depth > 4 || len(f.Blocks) == 0 || !curProgRoot(f) {
+			return
+		}
+		seen[f] = true
+		for _, g := range WithClosures(f) {
+			seen[g] = true
+			for _, cl := range Calls(g) {
+				cc := cl.Common()
+				if cc.IsInvoke() {
+					if cc.Method.Name() == "Enabled" && len(cc.Args) == 1 && TypeName(cc.Args[0].Type()) == "zapcore.Level" {
+						asks++
+					}
+					if cc.Method.Name() == "Level" && cc.Signature().Params().Len() == 0 {
+						bad = append(bad, FNm(g)+" asks a reported level ("+cc.Method.FullName()+")")
+					}
+					continue
+				}
+				sc := StaticCallee(cl)
+				if sc == nil {
+					continue
+				}
+				sig := sc.Signature
+				if res := sig.Results(); res.Len() == 1 && TypeName(res.At(0).Type()) == "zapcore.Level" && g != sc {
+					bad = append(bad, FNm(g)+" takes a reported level from "+FStr(sc))
+					continue
+				}
+				if rn := RecvNamed(sc); rn != nil && TypeName(rn) == "zapcore.Level" && sig.Results().Len() == 1 && TypeName(sig.Results().At(0).Type()) == "bool" {
+					bad = append(bad, FNm(g)+" answers from a level value ("+FStr(sc)+")")
+					continue
+				}
+				rec(sc, depth+1)
+			}
+		}
+	}
+	rec(fn, 0)
+	c.Check(asks > 0 && len(bad) == 0, rule, FStr(fn), "asks-the-branches", fn.Pos(), "the tee's Enabled reaches an Enabled call on a branch with the level asked about (%d) and no reported minimum level (%v)", asks, bad)
 }
